@@ -27,7 +27,7 @@ CHECKS = {
          "instantiation trees (4 leaf templates x fixed topologies with slice/bit/typed-view/expression actuals on inputs and outputs, nesting, instances inside contexts, OpenEntity/ConnectedEntity, plus 940 generated two-instance sequences) rendered hierarchically and flat; BFS over the product under all inputs; port lists, port maps, entity order, emitted-entity set, to_dir files compared with the source",
          "flat rendering calls the same logic function on the same actuals; vsim trusted"),
  "C16": ("model_checking", "explicit-state model checking (product BFS of marker-wrapper design x reference counter models with admissible-state sets)",
-         "wait_for / Waiter / delayed / DelayLine / continuous_counter / ClockDivider / ToggleSignal / debounce configurations (constant, run-time and Duration arguments) each explored to exhaustion under every admissible input per clock against counters written from the docstrings and upstream mocks",
+         "wait_for / Waiter / delayed / DelayLine / continuous_counter / ClockDivider / ToggleSignal / debounce configurations (constant, run-time and Duration arguments; contexts without / with sync / async reset, without / with a step condition driven by the environment) each explored to exhaustion under every admissible input per clock against counters written from the docstrings and upstream mocks",
          "phases the documentation leaves open are modelled as nondeterminism; vsim trusted; see notes/C16.md"),
  "C18": ("exploration", "bounded-exhaustive enumeration of helper call shapes x every input value at Python level and in compiled wrappers; CRC by exhaustive message-prefix tree",
          "all 38 named helpers x widths 1..6 (thorough 1..9) x every input value, evaluated on constants and in compiled std.concurrent wrappers under vsim; CRC for all polynomials of width 3..5 and all messages <=6 bits under all step splits against polynomial long division",
@@ -39,28 +39,28 @@ CHECKS = {
          "every depth-1 operator/conversion/method x both operand orders x Python ints on either side x every valuation for widths 1..3 (thorough 1..4): Python-level result, folded constant read back by simulation, and run-time result must agree in type, width and value",
          "a way that rejects makes no claim; vsim trusted (notes/C09.md)"),
  "C10": ("exploration", "bounded-exhaustive differential testing against CPython (signatures x call shapes, operator dispatch matrices, class/closure/expression/statement grammars)",
-         "230k (thorough 1.9M) generated compile-time programs evaluated by CPython and inside a std.concurrent body (value handed to a pyeval probe); cohdl must produce a structurally equal value or reject; CPython binding errors must be rejected",
+         "170k (thorough 2M) generated compile-time programs evaluated by CPython and inside a std.concurrent body (value handed to a pyeval probe); cohdl must produce a structurally equal value or reject; CPython binding errors must be rejected",
          "and/or compared by truth value; programs without structural equality are not generated (see final report in notes)"),
  "C13": ("exploration", "explicit enumeration of all orders of first use of parametrised types from the import-time cache state + exhaustive view-chain checks (Python level and emitted designs)",
-         "all orders of <=3 (thorough <=4) type expressions over qualifiers x kinds x widths, full lattice invariant after every prefix; view chains of length <=2 checked for aliasing at Python level and by simulating compiled wrappers for every input value",
+         "all orders of <=3 (thorough <=4) type expressions over qualifiers x kinds x widths, full lattice invariant after every prefix; view chains of length <=2 checked for aliasing at Python level and by simulating compiled wrappers for every input value; distinct roots built from one initialiser must not alias (822 cases incl. array init/reset values and views through Variable indices)",
          "class caches are saved/restored between orders (cross-checked against forked processes)"),
  "C14": ("model_checking", "explicit-state model checking (product BFS of wrapper design x deque/list model x environment) incl. exact liveness on the reachable graph",
-         "std.Fifo / std.Stack configurations (types, N, delays, one/two contexts, stack modes) explored to exhaustion under every push/pop/reset request combination per clock; cycle-exact oracle for zero-delay, safety + liveness oracle for delayed variants",
+         "std.Fifo / std.Stack configurations (types, N, delays up to 4, one/two contexts, stack modes) explored to exhaustion under every push/pop/reset request combination per clock; cycle-exact oracle for zero-delay, safety + liveness oracle for delayed variants",
          "single clock; delayed variants are not required to be cycle-exact (weakest reading) (notes/C14.md)"),
  "C15": ("model_checking", "explicit-state model checking (product BFS of two-process wrapper x hand-over monitor)",
-         "SyncFlag / Mailbox in six usage idioms x delays {0..2}^2 (thorough {0..4}^2) x one/two contexts explored to exhaustion under every send/willing choice per clock; exactly-once, order, payload and observation rules R1-R5 plus liveness",
+         "SyncFlag / Mailbox in six usage idioms (plus capitalised names with an observing third context and loop-first producers) x delays {0..2}^2 (thorough {0..4}^2) x one/two contexts explored to exhaustion under every send/willing choice per clock; exactly-once, order, payload and observation rules R1-R5 plus liveness",
          "single clock; latency left open (notes/C15.md)"),
  "C17": ("exploration", "bounded-exhaustive enumeration of serialisable type compositions x every value / bit pattern, Python level and compiled round-trip wrappers",
          "type compositions of nesting <=2 (thorough <=3) with total width <=8 (10): round-trip identities, count_bits, independently recomputed layout, compile-time == emitted logic, BitField ranges",
          "layout reference written from the .pyi docs and upstream serialization test (notes/C17.md)"),
  "C19": ("exploration", "bounded-exhaustive enumeration of fixed-point formats, format pairs, resize styles and every raw value against exact rational arithmetic",
-         "all formats [l:r] in -3..3 width<=5 (thorough -4..4 width<=6) for SFixed/UFixed: + - * == resize (2x2 styles) constructors, Python level and compiled wrappers under vsim, compared with fractions.Fraction",
+         "all formats [l:r] in -3..3 width<=5 (thorough -4..4 width<=6) for SFixed/UFixed: + - * == (run-time and constant operands on either side) resize (2x2 styles; direct, held and nested call shapes) constructors, Python level and compiled wrappers under vsim, compared with fractions.Fraction",
          "quick hardware level complete for -2..2 plus a seed-chosen sixth of the remaining pairs (notes/C19.md)"),
  "C20": ("model_checking", "explicit-state model checking (product BFS of register-map design x byte-array model + AXI monitor x protocol-respecting master environment)",
          "fixed register-map layouts (fields, arrays, AddrRange/Memory, interconnect) on addr_map_entity; per alphabet variant the reachable product space is exhausted under all per-clock valid/ready/payload choices; handshake, exactly-once response, strobe-exact write, read value, unmapped and notification rules; plus generated nesting trees (depth <=4, offsets per level) with an independent address oracle",
          "data abstraction: two data words, four strobes (assumption recorded in the evidence); reset not asserted (notes/C20.md)"),
  "C11": ("model_checking", "explicit-state search over histories of compilations on the real process-wide compiler state (os.fork as state snapshot) + fresh-interpreter variants under several hash seeds",
-         "every sequence of <=2 compilations over a 32-design alphabet (20 accepted, 12 rejected - one per failure stage; dynamic ports, module globals, attributes, library paths) and <=3 over a core, executed in one interpreter with fork snapshots; after every history the output must equal the fresh-interpreter golden bytes / the same rejection; every accepted design also compiled in fresh interpreters under several PYTHONHASHSEED values and perturbed allocation",
+         "every sequence of <=2 compilations over a 46-design alphabet (34 accepted, 12 rejected - one per failure stage; dynamic ports, module globals, attributes, library paths, reset inverters on class-level ports, expr_fn closures) and <=3 over a core, plus alternation histories (a b)^12 (thorough ^25) with and without gc between builds, executed in one interpreter with fork snapshots; after every history the output must equal the fresh-interpreter golden bytes / the same rejection; every accepted design also compiled in fresh interpreters under several PYTHONHASHSEED values and perturbed allocation",
          "alphabet of designs is fixed; histories beyond the stated depth and interpreter state outside the compiler are not covered (notes/C11.md)"),
 }
 ORDER = sorted(CHECKS)
